@@ -53,7 +53,9 @@ def ref_contains(ctx, dotted):
     return False
 
 
-CLASSES = {"int": int, "str": str, "list": list}
+CLASSES = {"int": int, "str": str, "list": list,
+           # a class whose metaclass is not `type` (an abstract base class): strings and lists are Sized
+           "sized": __import__("collections.abc").abc.Sized}
 
 
 def t_ctx(v):
